@@ -26,6 +26,7 @@
 #include <limits.h>
 #include <sys/socket.h>
 #include <sys/stat.h>
+#include <sys/wait.h>
 #include <sys/un.h>
 #include <unistd.h>
 
@@ -678,6 +679,35 @@ main(void)
       }
       vw_mode = 1;
       vw_b1 = vw_b2  = VW_KEEP_BLKSIZE;
+      if (rel == 'U' && geteuid() == 0) {
+        // relation U: the two files are readable by, but not owned by, the caller: the call is made in a child that
+        // has given up root (the case directory is the current directory: it only needs search permission)
+        fflush(stdout);
+        const int   perm_bad = chmod(".", 0755) || (!a_missing && chmod("a", 0644)) || (!b_missing && chmod("b", 0644));
+        const pid_t pid      = perm_bad ? -1 : fork();
+        if (pid == 0) {
+          if (setgid(65534) || setuid(65534)) {
+            _exit(3);
+          }
+          const int fds0 = count_fds();
+          errno          = atoi(tok[6]);
+          vw_active      = 1;
+          const bool eq  = zix_file_equals(&track.base, "a", pb);
+          vw_active      = 0;
+          const int fds1 = count_fds();
+          printf("eq= %s fds= %d leak= %d || %s\n", eq ? "true" : "false", fds1 - fds0, track.n_alloc - track.n_free,
+                 vw_log_len ? vw_log : "-");
+          fflush(stdout);
+          _exit(0);
+        }
+        int wst = 0;
+        if (pid < 0 || waitpid(pid, &wst, 0) != pid || !WIFEXITED(wst) || WEXITSTATUS(wst) != 0) {
+          puts("bad-case");
+        }
+        free(ab);
+        free(bb);
+        continue;
+      }
       if (rel == 'Z') {
         close(0); // relation Z: two different files, compared in a process whose descriptor 0 is closed (a daemon)
       }
